@@ -661,7 +661,9 @@ def rule_missing_is_undefined(ctx, rep, rid: str, where: Callable[[Func], bool],
         if not bad:
             rep.ok(rid, key, {"missing": _show(d), "undefined_gives": _show(x)})
             continue
-        if key in legit:
+        if ctx.facts.canon_qual(key) in legit:
+            key_c = ctx.facts.canon_qual(key)
+            legit = dict(legit, **{key: legit[key_c]})
             used.add(key)
             rep.ok(rid, key, {"missing": _show(d), "undefined_gives": _show(x), "legitimately_different": legit[key]})
             continue
@@ -856,7 +858,8 @@ def rule_argument_count_cases(ctx, rep, rid: str) -> None:
     rep.rule(rid, "for the built-ins that ECMAScript specifies by the number of arguments passed (listed with their step), folding the native with `args` of that length gives the listed value: splice() without arguments deletes nothing", floor=1)
     n = 0
     for fam, name, count, var, want, why in ARG_COUNT_CASES:
-        f = next((g for g in ctx.tree.funcs if g.name == name and g.parent is not None and g.parent.name == fam and not isinstance(g.node, ast.Lambda)), None)
+        fam_now = ctx.facts.family_methods().get(fam, fam)
+        f = next((g for g in ctx.tree.funcs if g.name == name and g.parent is not None and g.parent.name in (fam, fam_now) and not isinstance(g.node, ast.Lambda)), None)
         if f is None:
             raise AnalysisError(f"{rid}: native {fam}.{name} not found")
         va = f.node.args.vararg.arg if f.node.args.vararg is not None else "args"
